@@ -177,6 +177,9 @@ func Execute(ck *Check, r *Run) (harnessErr string) {
 				return
 			}
 			stack := string(debug.Stack())
+			if bp, ok := v.(*BubblePanic); ok {
+				v, stack = bp.Val, bp.Stack
+			}
 			cls := ""
 			if ck.PanicClass != nil {
 				cls = ck.PanicClass(v, stack)
@@ -221,7 +224,7 @@ func PanicInRepo(cls string) func(v interface{}, stack string) string {
 			if !strings.HasPrefix(ln, "/") {
 				continue
 			}
-			if strings.Contains(ln, "/runtime/") || strings.Contains(ln, "kit/run.go") || strings.Contains(ln, "/src/") || strings.Contains(ln, "/pkg/mod/") {
+			if strings.Contains(ln, "/runtime/") || strings.Contains(ln, "kit/run.go") || strings.Contains(ln, "kit/bubble.go") || strings.Contains(ln, "/src/") || strings.Contains(ln, "/pkg/mod/") {
 				continue
 			}
 			if strings.HasPrefix(ln, "/repo/") {
